@@ -382,3 +382,37 @@ def update_messages_are_decoded_by_kind(ctx):
     called = any(isinstance(c.func, ast.Name) and c.func.id == src(l.target) and any(isinstance(a, ast.Starred) for a in c.args) for l in loops for c in calls_in(l))
     ctx.check(called, f'{cb.qualname}:every registered function is called', cb.node, 'for cbfunc in list(cblist): cbfunc(*args)',
               'callback() never calls the registered functions: no callback sees any message', cb)
+
+
+@rule('C12.R8b', min_instances=1)
+def identifier_table_holds_full_identifiers_only(ctx):
+    """self.internal maps the wire identifier '<module>:<accessible>' to (module, parameter): every key stored has that form.  A
+    bare module name as key would be found by the first lookup of the receive loop and shadow the fallback that maps the
+    shorthand `changed <module>` to <module>:target and `update <module>` to <module>:value"""
+    m = ctx.m
+    ci = m.cls(roles.CLIENT)
+    n = 0
+    for name, f in sorted(ci.methods.items()):
+        for st in [x for x in body_walk(f.node) if isinstance(x, ast.Assign)]:
+            for t in st.targets:
+                if isinstance(t, ast.Subscript) and src(t.value) == 'self.internal':
+                    n += 1
+                    ctx.analysed(f)
+                    k = t.slice
+                    exprs = origins(k, f.node) if isinstance(k, ast.Name) else [k]
+                    ok = all(isinstance(e, ast.JoinedStr) and any(isinstance(v, ast.Constant) and ':' in str(v.value) for v in e.values) or
+                             (isinstance(e, ast.BinOp) and "':'" in src(e)) for e in exprs)
+                    ctx.check(ok, f'{f.qualname}:key of self.internal is module:accessible', st, f'`{src(k)}`',
+                              f'`{src(st)}` stores a key that is not of the form <module>:<accessible>: a shorthand reply `changed <module>` is then resolved by the '
+                              'first lookup (as <module>:value) and never reaches the <module>:target fallback - the wrong cache entry is overwritten', f)
+    if not n:
+        raise AnchorMissing('no store into self.internal found in SecopClient')
+
+
+@rule('C12.R6e', min_instances=6)
+def containers_import_their_members(ctx):
+    """shared with C02.R2: import_value / export_value of arrays, tuples and structs delegate to the same method of their
+    members (an array that imports its elements with the members' __call__ takes the transported integer of a scaled member for
+    its value and refuses the base64 text of a blob member): what the client caches is then not the import of the message"""
+    from sa.rules import c02
+    c02.container_delegation(ctx)
